@@ -3,6 +3,7 @@ CHECK_DEADLOCK FALSE
 INVARIANT TypeOK
 INVARIANT OrderIndependent
 INVARIANT CanonIdempotent
+INVARIANT BufferIndependent
 INVARIANT TokensWellFormed
 INVARIANT AcceptInDomain
 INVARIANT Emit
